@@ -53,6 +53,13 @@ class AbstractContainer(abstract.GeomdlBase):
         self._vis_component = None  # visualization component
         self._cache['evalpts'] = []
 
+    def __deepcopy__(self, memo):
+        result = super(AbstractContainer, self).__deepcopy__(memo)
+        # The cache is not copied; re-create its (empty) entries
+        for key in self._cache:
+            result._cache[key] = []
+        return result
+
     def __iter__(self):
         self._iter_index = 0
         return self
